@@ -223,5 +223,9 @@ func (state *RuntimeState) getStorageDataFromStorageStringDataJWT(serializedToke
 		err = errors.New("invalid JWT values")
 		return rvalue, err
 	}
+	if inboundJWT.Expiration < time.Now().Unix() {
+		err = errors.New("expired JWT")
+		return rvalue, err
+	}
 	return inboundJWT, nil
 }
